@@ -230,7 +230,15 @@ func TestC18(t *testing.T) {
 			npre := len(pre)
 			ev := &eventlogger.Event{Type: eventlogger.EventType(evType), CreatedAt: created, Formatted: pre, Payload: payload}
 			run.Progress("C18 %s", c)
-			out, err := f.Process(ctx, ev)
+			// the context of a Send that was cancelled while the pipeline is running reaches the formatter done;
+			// what the formatter owes the event does not depend on it (the recording signer ignores it)
+			pctx := ctx
+			if cr.Intn(4) == 0 {
+				cctx, cancel := context.WithCancel(ctx)
+				cancel()
+				pctx = cctx
+			}
+			out, err := f.Process(pctx, ev)
 			stored, has := ev.Format(storeKey)
 			wit := func(extra string) any {
 				return map[string]any{"case": c.String(), "stored": string(stored), "err": fmt.Sprint(err), "forwarded": out != nil, "signer_calls": signer.n, "detail": extra}
